@@ -25,6 +25,7 @@ EXPLANATION = (
     "tokens are evaluated in the registry's numeric type with integers first; the sign sets of the exponent "
     "look-ahead and of its consumer agree. Does not decide that the precedence-climbing recursion realises those "
     "tables for every token adjacency, nor the word-form/unicode regexes.")
+EXPLANATION += ' Also decided (rules added after the second round of seeded changes): token conservation in the uncertainty tokenizer (every named token reaches the output, an optionally present token such as the unary minus is yielded unchanged) and look-ahead offset agreement (the exponent is searched right behind the last token the branch guard inspected, with the same optional-minus shift).'
 
 HARD_SINKS = {"eval", "exec", "compile", "__import__", "import_module", "open", "system", "popen", "Popen", "run", "call", "check_output",
               "loads", "load", "execfile", "spawn", "CDLL"}
